@@ -561,6 +561,10 @@ def run(ctx):
 
     # ---------------------------------------------------------------- 4. program status
     r4 = rep.rule('C13.4-program-status-table', 'R-TABLE', 'mailprogram: 0 continue; 99 continue and stop after this instruction; 100,64,65,70,76,77,78,112 -> exit 100; crash and everything else -> exit 111 (all 256 statuses + signals)')
+    # the status macros every verdict on a child process goes through (wait.h): as functions of the status word
+    from rules import libtab as _lt
+    for inst_, v_ in sorted(_lt.waitmacro_sites(db, 'qmail-local.c').items()):
+        r4.check(v_[0], inst_, v_[1], v_[2], v_[3])
     mp = prog.fn('mailprogram', 'qmail-local.c')
     SH = StatusHooks('qmail-local.c:mailprogram')
     e4 = Engine(db, prog, SH)
